@@ -1,5 +1,5 @@
 (* C17 - WellFormed decides exactly the documented rules and String agrees with it. *)
-From MQ Require Import Model.Render Proofs.BytesP Proofs.WfP Proofs.RenderP Model.StringIR Proofs.StringP gen.GenString gen.SyncString.
+From MQ Require Import Model.Render Proofs.BytesP Proofs.WfP Proofs.RenderP Model.StringIR Proofs.StringP gen.GenString gen.SyncString Model.WfIR Proofs.WfIRP gen.GenWf gen.SyncWf.
 From Coq Require Import Strings.String. From Coq Require Import List. Import ListNotations. Open Scope N_scope.
 
 (* for every packet value, built or decoded *)
@@ -47,3 +47,21 @@ Theorem C17_string_is_the_source : forall k p, string_ir k <> None ->
   run_string_of k p = string_toks k p.
 Proof. exact run_string_is_string_toks. Qed.
 Print Assumptions C17_string_is_the_source.
+
+(* wf_publish, wf_subscribe and wf_filter - the functions the theorems above
+   are about - are the three WellFormed methods of the source: tools/gosync
+   translates their statements (`if c { return newMalformed(p, ref, reason) }`,
+   the `switch p.QoS()`, the loop over the filters) into statement lists, the
+   regenerated lists are those of Model/WfIR.v, and their interpretation
+   returns exactly the model's verdict, error for error; the text String()
+   appends is "<reason> <ref>". *)
+Theorem C17_wellformed_is_the_source :
+  g_wf_Publish = wf_publish_ir /\ g_wf_Subscribe = wf_subscribe_ir /\ g_wf_TopicFilter = wf_filter_ir /\
+  (forall p, run_wf wf_filter_ir wf_publish_ir p = option_map wferr_pair (wf_publish p)) /\
+  (forall p, run_wf wf_filter_ir wf_subscribe_ir p = option_map wferr_pair (wf_subscribe p)) /\
+  (forall f, run_filter_prog wf_filter_ir f = option_map wferr_pair (wf_filter f)).
+Proof.
+  exact (conj sync_wf_Publish (conj sync_wf_Subscribe (conj sync_wf_TopicFilter
+        (conj wf_publish_is_ir (conj wf_subscribe_is_ir wf_filter_is_ir))))).
+Qed.
+Print Assumptions C17_wellformed_is_the_source.
